@@ -73,6 +73,13 @@ def programs():
         [[("consume", 1)], [("remaining",)]])
     bud("[consume;consume]||[consume;remaining]", {"max": 3, "window": 4}, [],
         [[("consume", 1), ("consume", 1)], [("consume", 1), ("remaining",)]])
+    # the clock advances while the operations race (a third party: the ticker)
+    bud("consume||consume||tick then later consume", b2, [("consume", 1), ("tick", 2)],
+        [[("consume", 1)], [("consume", 1)], [("tick", 3)]])
+    bud("consume||[tick;consume]", b2, [("consume", 1)],
+        [[("consume", 1)], [("tick", 3), ("consume", 1)]])
+    brk("open-almost-due allow||tick||allow", [("failure", "T"), ("tick", 1)],
+        [[("allow",)], [("tick", 1)], [("allow",)]])
     return P
 
 
